@@ -147,6 +147,26 @@ def taint_chain(n):
     return {"main.py": "\n".join(lines) + "\n"}
 
 
+def contains_dag(n):
+    """a chain of n diamonds in the contains-relation built by field writes: on each level a box allocated in either arm of a branch holds the
+    same inner box; the outermost one reaches a sink (the sink check walks the inclusion graph: linear when every node is expanded once)."""
+    lines = ["class Box:", "    def __init__(self):", "        self.item = None", "", "def handler(flag):", "    data = source()", "    cur = Box()", "    cur.item = data"]
+    for k in range(n):
+        lines += ["    if flag:", "        mid%d = Box()" % k, "    else:", "        mid%d = Box()" % k, "    mid%d.item = cur" % k, "    cur = Box()", "    cur.item = mid%d" % k]
+    lines += ["    sink(cur)", "    return cur", "", "handler(1)"]
+    return {"main.py": "\n".join(lines) + "\n"}
+
+
+def nested_ctor_dag(n):
+    """the same diamonds built by passing the inner object to a constructor / a list literal in the two arms: every call copies what its argument
+    reaches, the two arms hold different copies, and the number of abstract states doubles per level (growth family: judged by state counts)."""
+    lines = ["class Box:", "    def __init__(self, v):", "        self.v = v", "", "def handler(c):", "    t = source()", "    o0 = Box(t)"]
+    for i in range(1, n + 1):
+        lines += ["    if c:", "        o%d = Box(o%d)" % (i, i - 1), "    else:", "        o%d = [o%d, 1]" % (i, i - 1)]
+    lines += ["    sink(o%d)" % n, "handler(1)"]
+    return {"main.py": "\n".join(lines) + "\n"}
+
+
 HOSTILE = [
     'a = \'a"+f()+"b\'\nc = a + "k"\n',
     'a = "x\\\\"\nb = a + "\\""\nc = b + a\n',
@@ -181,4 +201,11 @@ FAMILIES = {
     "wide": (wide, False),
     "empty_callees": (empty_callees, False),
     "taint_chain": (taint_chain, True),
+    "contains_dag": (contains_dag, True),
+    "nested_ctor_dag": (nested_ctor_dag, True),
 }
+# families whose interesting sizes differ from the common sweep
+SIZES = {"contains_dag": {"quick": [4, 32], "thorough": [4, 16, 32, 48]}, "nested_ctor_dag": {"quick": [8, 12], "thorough": [8, 12, 14]}}
+# growth families: the number of abstract states (rows of s2space_p3) at the largest size may be at most GROWTH_FACTOR x the number at the smallest one
+# (sizes 8 -> 12: a cubic would give (12/8)^3 = 3.4; doubling per level gives 16)
+GROWTH = {"nested_ctor_dag": 8}
